@@ -543,7 +543,7 @@ def run(prop, tier, rep):
         # PIX pixel positions are under contract (unit tag C16); this small bounded stand-in still runs with every C16 check as a cross-check
         try:
             from vcheck import differential
-            differential.run_tool(prop, rep, "pixtopgm", rep.seed, "pixel positions and grey values of PIX are not under contract")
+            differential.run_tool(prop, rep, "pixtopgm", rep.seed, "cross-check of the PIX pixel contract (unit tag C16) against CPython on generated files")
         except Exception as e:  # noqa
             rep.errors.append("PIX stand-in could not run: %s: %s" % (type(e).__name__, str(e)[:300]))
     if prop == "C19" and not os.environ.get("VERIF_ONLY_UNITS"):
